@@ -42,3 +42,24 @@ PROPS["C14"] = dict(
 
 # properties without a check (kept current; reason per property)
 NOT_APPLICABLE = {}
+
+PROPS["C16"] = dict(
+    harness="c16_sparselu", flavour="asan",
+    quick=dict(workers=8, cases=8000, min_nontrivial=200),
+    thorough=dict(workers=16, cases=600000, min_nontrivial=2000, budget_s=3000),
+    rule="Square sparse matrices admitting LU without pivoting by construction: patterns banded/arrow/random density "
+         "0.02-0.5/block/9-point x values strictly row-dominant, column-dominant, or the product of a sparse unit-lower L "
+         "and an upper U with |u_ii| in [0.1,10] (not dominant, non-symmetric); rows scaled by 10^U[-k,k], k in {0,3,6}, "
+         "or all rows scaled to 1e-15..1e-12 (class tiny, solved in a forked child so a process exit is observed); "
+         "explicit zeros inserted; columns inside a row sorted/reversed/shuffled; all three CSR construction paths; "
+         "n=1..60 and 120/300; 1-4 right-hand sides. Non-trivial: fill-in occurs or a row is stored unsorted. "
+         "Distinct: (n, pattern+value+scale class, constructor, sortedness, zeros, fill, #rhs, rhs kind, log10 min pivot).",
+    technique="property-based testing (rapidcheck); differential against long double dense LU with Higham's componentwise bound",
+    level_text="Generated sparse systems are solved by the real CSR container + SparseLUSolver and judged by the rigorous "
+               "componentwise backward bound |b-Ax| <= c*gamma_3n*|L||U||x| (L,U from a long double factorisation "
+               "without pivoting) and the implied forward bound against a pivoted long double reference. Exploration only.",
+    level_note="Trusted: harness/common/dense.h reference, the constant 8 in the bound (observed maxima in the evidence). "
+               "Duplicate (row,col) entries and missing diagonals are outside the documented input domain and not generated.",
+    assumptions=["duplicate positions are not generated (their meaning is undocumented)",
+                 "matrices whose exact LU meets a zero pivot are discarded (counted)"],
+)
